@@ -601,14 +601,23 @@ def table_helper(h):
     if len(names) != 2 or vname not in names:
         return None
     p_opt = [n for n in names if n != vname][0]
-    ib = lp.body[0].body
+    ib = list(lp.body[0].body)
+    p_loader = None
+    # the setter may be listed by name: `setter = getattr(<loader parameter>, name)` first
+    if len(ib) == 2 and isinstance(ib[0], ast.Assign) and len(ib[0].targets) == 1 and isinstance(ib[0].targets[0], ast.Name) \
+            and isinstance(ib[0].value, ast.Call) and dotted(ib[0].value.func) == "getattr" and len(ib[0].value.args) == 2 \
+            and isinstance(ib[0].value.args[0], ast.Name) and ib[0].value.args[0].id in params \
+            and isinstance(ib[0].value.args[1], ast.Name) and ib[0].value.args[1].id == sname:
+        p_loader = ib[0].value.args[0].id
+        sname = ib[0].targets[0].id
+        ib = ib[1:]
     if not (len(ib) == 1 and isinstance(ib[0], ast.Return) and isinstance(ib[0].value, ast.Call) and isinstance(ib[0].value.func, ast.Name)
             and ib[0].value.func.id == sname and len(ib[0].value.args) == 1 and isinstance(ib[0].value.args[0], ast.Name) and not ib[0].value.keywords):
         return None
     p_arg = ib[0].value.args[0].id
     if p_opt not in params or p_arg not in params:
         return None
-    return p_opt, lp.iter.id, p_arg, body[1:]
+    return p_opt, lp.iter.id, p_arg, body[1:], p_loader
 
 
 def dispatch(index, rep, sinfo):
@@ -663,29 +672,45 @@ def dispatch(index, rep, sinfo):
     # the helper applies the setter of the first pair whose value equals the option and otherwise refuses (its tail is the else branch)
     from .core import Inliner as _Inl13, bind_args as _ba13
     methods_run = index.methods(RUN, "ScenarioRunner")
+    modfuncs_run = {f_.name: f_ for f_ in index.module(RUN).body if isinstance(f_, ast.FunctionDef)}
+    from .symx import Interp as _I13
     inl_fn = _Inl13(fn)
     for st in fn.body:
         call = st.value if isinstance(st, (ast.Assign, ast.Expr)) and isinstance(st.value, ast.Call) else None
         d = dotted(call.func) if call is not None else None
-        if not (d and d.startswith("self.") and d[5:] in methods_run):
+        helper = None
+        if d and d.startswith("self.") and d[5:] in methods_run:
+            helper, as_method = methods_run[d[5:]], True
+        elif d and d in modfuncs_run:
+            helper, as_method = modfuncs_run[d], False       # a module-level dispatcher
+        if helper is None:
             continue
-        th = table_helper(methods_run[d[5:]])
+        th = table_helper(helper)
         if th is None:
             continue
-        p_opt, p_tab, p_arg, tail = th
-        bound = _ba13(call, methods_run[d[5:]])
+        p_opt, p_tab, p_arg, tail, p_loader = th
+        bound = _ba13(call, helper, method=as_method)
         if p_opt not in bound or p_tab not in bound:
             continue
         o = bound[p_opt]
         key = str_const(o.slice) if isinstance(o, ast.Subscript) and isinstance(o.value, ast.Name) and o.value.id == "scenario_option_copy" else None
         tab = bound[p_tab] if isinstance(bound[p_tab], (ast.Tuple, ast.List)) else _Inl13(fn, max_depth=1).at(st).expr(bound[p_tab])
+        if isinstance(tab, ast.Name) and _I13.global_literals is not None and tab.id in _I13.global_literals:
+            tab = _I13.global_literals[tab.id]               # a module-level table
         if key is None or not isinstance(tab, (ast.Tuple, ast.List)):
             continue
         arms = []
         okt = True
         for e in tab.elts:
             if isinstance(e, (ast.Tuple, ast.List)) and len(e.elts) == 2 and str_const(e.elts[0]) is not None:
-                body = [ast.Expr(value=ast.Call(func=e.elts[1], args=[bound[p_arg]] if p_arg in bound else [], keywords=[]))]
+                setter_e = e.elts[1]
+                if p_loader is not None:
+                    # listed by name and fetched from the loader object handed in
+                    if str_const(setter_e) is None or p_loader not in bound:
+                        okt = False
+                        continue
+                    setter_e = ast.Attribute(value=bound[p_loader], attr=str_const(setter_e), ctx=ast.Load())
+                body = [ast.Expr(value=ast.Call(func=setter_e, args=[bound[p_arg]] if p_arg in bound else [], keywords=[]))]
                 arms.append((str_const(e.elts[0]), body, st))
             else:
                 okt = False
